@@ -47,11 +47,16 @@ let layout_string (t : tree0) =
     "#" ^ string_of_int !h
   end
 
+(* for big trees (reserved_size > 255) the O(R) parts of the observation (OK(), layout hash) are printed
+   on every 4th operation of the history and on every iteration only; both sides use the same rule *)
+let opcount = ref 0
 let obs name ret (s : srow) =
   let t = s.s_tree in
-  Printf.printf "%s ret=%s S=%d R=%d D=%d n=%d ok=%d lay=%s\n" name ret
+  incr opcount;
+  let full = int_of_n t.t_rsz <= 255 || !opcount mod 4 = 0 || name = "iter" in
+  Printf.printf "%s ret=%s S=%d R=%d D=%d n=%d ok=%s lay=%s\n" name ret
     (int_of_n t.t_size) (int_of_n t.t_rsz) (int_of_n t.t_depth) (int_of_n s.s_size)
-    (if srow_ok s then 1 else 0) (layout_string t)
+    (if full then (if srow_ok s then "1" else "0") else "~") (if full then layout_string t else "~")
 
 (* ---- tree histories ---- *)
 let nreg = 4
@@ -143,6 +148,7 @@ let () =
          | "H" :: id :: _ ->
            for k = 0 to nreg - 1 do regs.(k) <- { s_tree = empty_tree; s_size = N0 }; prev.(k) <- 1; erased.(k) <- 1 done;
            Rowsle.reset ();
+           opcount := 0;
            Printf.printf "H %s\n" id
          | "T" :: rest -> (try tree_op rest with e -> Printf.printf "EXN %s\n" (Printexc.to_string e))
          | "E" :: rest -> (try Rowsle.le_op rest with e -> Printf.printf "EXN %s\n" (Printexc.to_string e))
